@@ -178,6 +178,13 @@ func (w *World) EntryFacts(fn *ssa.Function) []entryFact {
 			}
 		}
 	}
+	for _, q1 := range seqs {
+		for _, q2 := range seqs {
+			if q1 != q2 {
+				cands = append(cands, entryFact{kind: 'L', p: q1, q: q2}) // len(q1) >= len(q2): a destination at least as long as its source
+			}
+		}
+	}
 	if len(cands) == 0 {
 		return nil
 	}
@@ -211,6 +218,8 @@ func (w *World) EntryFacts(fn *ssa.Function) []entryFact {
 				g = lin.GE(ctx.Lin(args[cd.p]), lin.K(1))
 			case 'U':
 				g = lin.LE(ctx.Lin(args[cd.p]), lin.K(1<<31))
+			case 'L':
+				g = lin.GE(ctx.LenOf(args[cd.p]), ctx.LenOf(args[cd.q]))
 			case 'l':
 				g = lin.GE(ctx.LenOf(args[cd.q]), lin.K(cd.k))
 			case 's':
@@ -220,6 +229,9 @@ func (w *World) EntryFacts(fn *ssa.Function) []entryFact {
 			}
 			if !ctx.Prove(g) {
 				alive[i] = false
+				if os.Getenv("MANTICHECK_DEBUG_ENTRY") == "2" {
+					fmt.Fprintf(os.Stderr, "entry cand %c(p%d) of %s dies at %s: goal %s facts %v\n", cd.kind, cd.p, fn.Name(), caller.Name(), ctx.Describe(g), ctx.FactStrings(g, 14))
+				}
 			}
 		}
 	}
@@ -277,6 +289,8 @@ func (c *Ctx) addEntryFacts() {
 			c.add(lin.GE(c.Lin(fn.Params[ef.p]), lin.K(1)))
 		case 'U':
 			c.add(lin.LE(c.Lin(fn.Params[ef.p]), lin.K(1<<31)))
+		case 'L':
+			c.add(lin.GE(c.LenOf(fn.Params[ef.p]), c.LenOf(fn.Params[ef.q])))
 		case 'l':
 			c.add(lin.GE(c.LenOf(fn.Params[ef.q]), lin.K(ef.k)))
 		case 's':
